@@ -388,7 +388,7 @@ class Pairing:
                         for (fa, rl, tk) in outs:
                             if any(cb != ("0", "0") for cb in rl):
                                 refusals.append((ev, rl))
-                            if any(t.startswith("W:") for t in tk):
+                            if any(t.startswith(("W:", "V:")) for t in tk):
                                 refusal_tokens.append((ev, tk))
                 if ev.kind == "write":
                     fr = fresh_recv(ev)
